@@ -42,7 +42,10 @@ def props_of(func, clause, kind, explicit=None):
         if "_message_counter" in c or "ids_below" in c or "result >= 1" in c:
             out |= {"C09"}
         if "_outstanding_requests" in c or "_search_requests" in c:
-            out |= {"C09"} if is_client else {"C10"}
+            if "empty_set()" in c and "bind" in f:
+                out |= {"C08"}       # a bind cannot start while other operations are outstanding
+            else:
+                out |= {"C09"} if is_client else {"C10"}
         if kind == "frame":
             out |= {"C08", "C10", "C12"}
         if not out:
@@ -135,7 +138,7 @@ def run_property(pid, tier):
 
     # ---- deductive stage
     results = deductive_stage(reg.get("jobs", []), tier) if reg.get("jobs") else []
-    instances, by_name, func_rows, errors = [], {}, [], []
+    instances, by_name, func_rows, errors, missing_funcs = [], {}, [], [], []
     solver_s = 0.0
     for res in results:
         jb = res["job"]
@@ -144,7 +147,12 @@ def run_property(pid, tier):
                "paths": res.get("stats", {}).get("paths"), "error": res.get("error")}
         func_rows.append(row)
         if res.get("error"):
-            errors.append({"function": jb["ckey"], "error": res["error"][:600], "kind": res.get("error_kind")})
+            if res.get("error_kind") == "missing":
+                # the function no longer exists (renamed / folded into its caller): its contract cannot attach; the
+                # property then rests on the contracts of the functions that remain, which are still verified below
+                missing_funcs.append(jb["ckey"])
+            else:
+                errors.append({"function": jb["ckey"], "error": res["error"][:600], "kind": res.get("error_kind")})
         for o in res["obligations"]:
             o["function"] = jb["ckey"]
             if pid not in props_of(jb["ckey"], o.get("clause"), o.get("kind")) and not jb["ckey"].startswith("specs.") and reg.get("filter_by_clause", True) and ("_session" in jb["ckey"]):
@@ -176,6 +184,8 @@ def run_property(pid, tier):
     regressions_refuted, regressions_open = [], []
     for name in sorted(baseline):
         os_ = by_name.get(name)
+        if os_ is None and any(name.startswith(m.replace(":", ".", 1) + "/") for m in missing_funcs):
+            continue
         if os_ is None:
             regressions_open.append({"name": name, "why": "obligation no longer generated (function changed shape, contract no longer attaches, or engine error)"})
             continue
@@ -254,7 +264,7 @@ def run_property(pid, tier):
         "obligation_names_proved": len(proved_names), "baseline_names": len(baseline),
         "regressions_refuted": [r["name"] for r in regressions_refuted], "undecided": [r["name"] for r in regressions_open][:40],
         "open_not_in_baseline": sorted(n for n in by_name if n not in baseline and n not in proved_names)[:40],
-        "engine_errors": errors[:20],
+        "engine_errors": errors[:20], "functions_missing_from_source": missing_funcs,
         "solver_s": round(solver_s, 2), "slow": sorted({o["name"] for o in instances if o["time"] > 5})[:30],
         "backends": _count([o["backend"].split("(")[0] for o in instances]),
         "callee_contracts_used": used[:80],
@@ -275,6 +285,8 @@ def run_property(pid, tier):
     # ---- report
     print(f"property {pid} tier={tier}: {n_dis}/{n_obl} obligation instances discharged ({len(proved_names)} names), "
           f"bounded evaluations={evaluations}, wall={round(time.time() - t0, 1)}s")
+    for m in missing_funcs:
+        print(f"NOTE function {m} no longer exists in the source: its contract is not attached")
     for e in errors[:10]:
         print(f"ENGINE-ERROR function={e['function']}: {e['error'][:300]}")
     for e in native_errors:
